@@ -282,3 +282,61 @@ class GlobalFilterRulesField(Contract):
 
     def frame_ok(self, I, inp, obj, name):
         return False
+
+
+@register
+class CollectionApplyFilters(Contract):
+    """SigmaCollection.apply_filters: every detection rule of the collection - each one, whatever its id or name, also rules without id and
+    rules that share an id - is passed through EVERY filter in order (the result of one filter is the input of the next); correlation
+    rules are left alone; the rule list keeps its length and order"""
+    id = "C11.SigmaCollection.apply_filters"
+    target = "sigma.collection:SigmaCollection.apply_filters"
+    props = ("C11",)
+    cases = tuple((nr, nf) for nr in (0, 1, 3) for nf in (0, 1, 2))
+
+    def args(self, I, case):
+        nr, nf = case
+        idx = I.E.index
+        R, C = idx.lookup("sigma.rule.rule:SigmaRule"), idx.lookup("sigma.correlations:SigmaCorrelationRule")
+        trace = []
+        shared_id = SObj("UUID", {})
+        rules = []
+        for i in range(nr):
+            r = SObj(R, {"id": None if i == 0 else shared_id, "name": None}, lazy=True)     # rules without id, rules sharing an id
+            r.ghost["tag"] = f"r{i}"
+            rules.append(r)
+        corr = SObj(C, {}, lazy=True)
+        if nr:
+            rules.insert(1, corr)
+
+        def mkf(j):
+            def apply(I2, a, k):
+                src = a[0]
+                out = SObj(R, {"id": src.fields.get("id"), "name": None}, lazy=True)
+                out.ghost["tag"] = src.ghost["tag"] + f">f{j}"
+                trace.append((j, src.ghost["tag"]))
+                return out
+            return SObj("Filter", {"apply_on_rule": NativeFn("apply_on_rule", apply)})
+        filters = [mkf(j) for j in range(nf)]
+        me = SObj(idx.lookup("sigma.collection:SigmaCollection"), {"rules": list(rules)}, lazy=True)
+        return {"self": me, "args": [filters], "rules": rules, "corr": corr, "trace": trace, "case": case}
+
+    def post(self, I, inp, r):
+        nr, nf = inp["case"]
+        c = I.ctx
+        got = inp["self"].fields["rules"]
+        got = I.force(got) if not isinstance(got, list) else got
+        ok = isinstance(got, list) and len(got) == len(inp["rules"])
+        c.require(ok, "the rule list keeps its length")
+        if not ok:
+            return
+        for before, after in zip(inp["rules"], got):
+            if before is inp["corr"]:
+                c.require(after is before, "a correlation rule is left alone")
+            else:
+                want = before.ghost["tag"] + "".join(f">f{j}" for j in range(nf))
+                c.require(isinstance(after, SObj) and after.ghost.get("tag") == want, f"rule {before.ghost['tag']} went through every filter in order ({want}); got {getattr(after, 'ghost', {}).get('tag')}")
+        c.require(len(inp["trace"]) == nr * nf, "each (rule, filter) pair exactly once")
+
+    def frame_ok(self, I, inp, obj, name):
+        return obj is inp["self"] and name == "rules"
